@@ -32,6 +32,14 @@ class LRUModel:
     # every op returns ("ok", value) or ("err", "KeyError")
     def apply(self, op: tuple) -> tuple:
         name = op[0]
+        if len(op) > 1 and isinstance(op[1], list):
+            return ("err", "TypeError")  # unhashable key: nothing happens
+        if name == "iterreads":
+            keys = tuple(self.order) if op[1] else tuple(reversed(self.order))
+            for k in keys:
+                if k in self.map and op[2] in (0, 1):
+                    self._touch(k)
+            return ("ok", keys)
         if name == "getitem":
             k = op[1]
             if k in self.map:
